@@ -23,6 +23,12 @@ Proof.
   - destruct e, e'; simpl in E; try discriminate; reflexivity.
 Qed.
 
+Lemma option_eqb_nat_eq (x y : option nat) : option_eqb Nat.eqb x y = true -> x = y.
+Proof.
+  destruct x, y; cbn [option_eqb]; try discriminate; [|reflexivity].
+  intro H. f_equal. apply Nat.eqb_eq. exact H.
+Qed.
+
 Fixpoint nodup_b (l : list str) : bool :=
   match l with
   | [] => true
@@ -201,14 +207,22 @@ Definition prefix_pairs : list (str * str) :=
   flat_map (fun a => map (fun b => (a, b)) (filter (proper_prefix a) all_names)) all_names.
 
 (** ** Conversions: every ordered pair of names *)
-Definition tol6 : Q := 1 # 1000000.
 Definition tol50 : Q := 1 # (2 ^ 50).
 
 Definition q_close (x y tol : Q) : bool := Qle_bool (Qabs (x - y)) (y * tol).
 
+Definition exact_b (v : num) : bool :=
+  match v with
+  | NInt _ => true
+  | NFrac n d => (Z.gcd n (Zpos d) =? 1)%Z
+  | NFloat _ _ => false
+  end.
+Lemma exact_b_spec v : exact_b v = true -> exact_num v.
+Proof. destruct v; simpl; try discriminate; [trivial|]. intro H. apply Z.eqb_eq. exact H. Qed.
+
 Definition factor_ok (a b : str) : bool :=
   match convert_between a b, ideal a b with
-  | Ok f, Some q => q_close (to_Q f) q tol6 && (is_float f || Qeq_bool (to_Q f) q)
+  | Ok f, Some q => q_close (to_Q f) q (ideal_tol a b) && (is_float f || (exact_b f && Qeq_bool (to_Q f) q))
   | _, _ => false
   end.
 
@@ -241,7 +255,7 @@ Definition pair_ok (a b : str) : bool :=
   else res_same num_same (convert_between a b) (Err KeyError).
 
 Lemma table_pairs_ok : all_pairs pair_ok = true.
-Proof. vm_compute. reflexivity. Qed.
+Proof. vm_cast_no_check (eq_refl true). Qed.
 
 Lemma pair_facts a b : In a all_names -> In b all_names ->
   kind_agrees a = true /\ canon_ok a b = true /\
@@ -261,13 +275,15 @@ Proof. unfold q_close. apply Qle_bool_iff. Qed.
 
 Theorem factor_physical a b : In a all_names -> In b all_names -> same_kind a b = true ->
   exists f q, convert_between a b = Ok f /\ ideal a b = Some q /\
-              (Qabs (to_Q f - q) <= q * tol6)%Q /\ (is_float f = false -> (to_Q f == q)%Q).
+              (Qabs (to_Q f - q) <= q * ideal_tol a b)%Q /\ (is_float f = false -> exact_num f /\ (to_Q f == q)%Q).
 Proof.
   intros Ha Hb Hk. destruct (pair_facts a b Ha Hb) as [_ [_ [H _]]]. destruct (H Hk) as [Hf _].
   unfold factor_ok in Hf.
   destruct (convert_between a b) as [f|]; [|discriminate]. destruct (ideal a b) as [q|]; [|discriminate].
-  apply andb_true_iff in Hf as [H1 H2]. exists f, q. repeat split; [apply q_close_spec; exact H1|].
-  intro Hfl. rewrite Hfl in H2. simpl in H2. apply Qeq_bool_iff. exact H2.
+  apply andb_true_iff in Hf as [H1 H2]. exists f, q.
+  split; [reflexivity|]. split; [reflexivity|]. split; [apply q_close_spec; exact H1|].
+  intro Hfl. rewrite Hfl in H2. cbn [orb] in H2. apply andb_true_iff in H2 as [H2 H3].
+  split; [apply exact_b_spec; exact H2 | apply Qeq_bool_iff; exact H3].
 Qed.
 
 Theorem reciprocal a b : In a all_names -> In b all_names -> same_kind a b = true ->
@@ -302,7 +318,7 @@ Definition trans_ok (a b c : str) : bool :=
 
 Lemma table_triples_ok :
   forallb (fun a => forallb (fun b => forallb (trans_ok a b) canon_names) canon_names) canon_names = true.
-Proof. vm_compute. reflexivity. Qed.
+Proof. vm_cast_no_check (eq_refl true). Qed.
 
 Lemma canon_facts a b : In a all_names -> In b all_names ->
   exists a' b', canon a = Some a' /\ canon b = Some b' /\
@@ -318,10 +334,8 @@ Proof.
   - destruct (pair_facts b a Hb Ha) as [_ [Hc' _]]. unfold canon_ok in Hc'. rewrite Ea, Eb in Hc'.
     repeat (apply andb_true_iff in Hc' as [Hc' ?]).
     apply filter_In. split; [apply str_mem_In; assumption | assumption].
-  - destruct (kind_of a'), (kind_of a); simpl in *; try discriminate; [|reflexivity].
-    f_equal. apply Nat.eqb_eq. assumption.
-  - destruct (kind_of b'), (kind_of b); simpl in *; try discriminate; [|reflexivity].
-    f_equal. apply Nat.eqb_eq. assumption.
+  - apply option_eqb_nat_eq. assumption.
+  - apply option_eqb_nat_eq. assumption.
 Qed.
 
 Theorem transitive a b c : In a all_names -> In b all_names -> In c all_names ->
